@@ -624,6 +624,40 @@ Fixpoint traverse_list (o : order) (fuel : nat) (h : heap) (flags : nat) (x : pt
     end
   end.
 
+(* ------------------------------------------------------------------ node_next.c / node_find.c *)
+(* mpt_node_next(curr, ident): first node from curr on (inclusive) with that name.
+   Name code 0 stands for ident = NULL, which matches no node (an unnamed node has
+   charset 0, not UTF8). *)
+Fixpoint node_next (fuel : nat) (h : heap) (curr : ptr) (nm : nat) : R ptr :=
+  match curr with
+  | None => ROk None
+  | Some i =>
+    match fuel with
+    | 0 => RFuel
+    | S f =>
+      do n <- get h i;
+      if negb (nm =? 0) && (nname n =? nm) then ROk (Some i)
+      else node_next f h (nnext n) nm
+    end
+  end.
+
+(* mpt_node_find(parent, name, pos): among the children, by name and position
+   (mpt_node_locate with the default charset: an unnamed node never matches) *)
+Definition node_find (h : heap) (parent : nat) (nm : nat) (pos : Z) : R ptr :=
+  do k <- fld nkid h (Some parent);
+  match k with
+  | None => ROk None                                  (* errno = EINVAL *)
+  | Some _ =>
+    if nm =? 0 then ROk None
+    else if (0 <=? pos)%Z then locate (fuel_of h) h k pos nm
+    else
+      do t <- locate (fuel_of h) h k 0%Z nm;
+      match t with
+      | None => ROk None
+      | Some _ => locate (fuel_of h) h t pos nm
+      end
+  end.
+
 (* ------------------------------------------------------------------ history language *)
 (* Guards are the callers' obligations of the C interface (insert only nodes that
    are not linked anywhere, never below themselves; merge lists of different
@@ -647,6 +681,8 @@ Inductive op :=
 | OSwitch (a b : nat)
 | ORelink (x : nat)
 | OTrav (o : order) (flags : nat) (x : nat)
+| OFind (p : nat) (nm : nat) (pos : Z)
+| ONext (x : nat) (nm : nat)
 | OEnd.
 
 Inductive out :=
@@ -776,6 +812,10 @@ Definition mstep (h : heap) (o : op) : R (heap * out) :=
     if live h x then do h <- gnode_relink (fuel_of h) h x; ROk (h, OutP None) else ROk (h, OutX)
   | OTrav o fl x =>
     if live h x then do l <- traverse_list o (fuel_of h) h fl (Some x) []; ROk (h, OutL l) else ROk (h, OutX)
+  | OFind p nm pos =>
+    if live h p then do r <- node_find h p nm pos; ROk (h, OutP r) else ROk (h, OutX)
+  | ONext x nm =>
+    if live h x then do r <- node_next (fuel_of h) h (Some x) nm; ROk (h, OutP r) else ROk (h, OutX)
   | OEnd =>
     (* harness clean-up: every live node without parent is unlinked and destroyed *)
     do h <- fold_left (fun (rh : R heap) (i : nat) =>
